@@ -172,3 +172,23 @@ func zzErrKind(err error) string {
 	}
 	return "other"
 }
+
+// zzErrorText calls err.Error() and converts a panic into a value: an error
+// value whose text cannot be printed is not a usable error.
+func zzErrorText(err error) (text string, pan interface{}) {
+	defer func() {
+		if r := recover(); r != nil {
+			pan = r
+		}
+	}()
+	return err.Error(), nil
+}
+
+// zzInputDoc: the symbolic document of the job, or - for jobs that carry a
+// concrete (large) JSON text - that document decoded.
+func zzInputDoc(name string) interface{} {
+	if zzParam("json") != "" {
+		return zzJSON("json")
+	}
+	return zzDoc(name)
+}
